@@ -84,7 +84,13 @@ func checkCase(c Case) (out string, err error) {
 	if c.Prec <= 0 {
 		return out, fmt.Errorf("value changed at precision %d: %q (%v) -> %q (%v)", c.Prec, c.Num, vi, out, vo)
 	}
-	if !decnum.WithinHalfUnit(vi, vo, c.Prec) {
+	prec := c.Prec
+	if c.Func == "Decimal" && !vi.IsZero() && vi.Exp.IsInt64() && vi.Exp.Int64() > int64(prec) {
+		// "Only digits after the dot can be removed": a decimal with more integer digits than prec keeps all of them,
+		// the last retained digit is never left of the units digit
+		prec = int(vi.Exp.Int64())
+	}
+	if !decnum.WithinHalfUnit(vi, vo, prec) {
 		return out, fmt.Errorf("precision %d: %q -> %q is more than half a unit of the last retained digit away", c.Prec, c.Num, out)
 	}
 	return out, nil
